@@ -119,6 +119,12 @@ fn run(eng: &Engine, a: &Args) {
         let coin = vpmodel::chain::ALL_COINS[k % 8];
         fixed.push(Case { chain: vpmodel::spec::chain_from_scripts(coin, &scripts, &[7_000, 9_000], 1, 2, 0, 1_500_000_000), start_sel: None, end_sel: None });
     }
+    // all transaction values 0 or 1: the biggest-value transaction is worth exactly one unit (second sweep survivor:
+    // a start value of 1 instead of 0 for the running maximum)
+    for (k, vals) in [vec![0u64, 0, 1, 0, 0], vec![1u64], vec![0u64, 1, 1], vec![0u64, 0, 0, 2]].iter().enumerate() {
+        let scripts: Vec<Vec<u8>> = (0..7).map(|i| vec![0x52 + i as u8]).collect();
+        fixed.push(Case { chain: vpmodel::spec::chain_from_scripts(vpmodel::chain::ALL_COINS[(k * 3) % 8], &scripts, vals, 1, 2, 0, 1_500_000_000), start_sel: None, end_sel: None });
+    }
     eng.enumerate("fixed-defect-regressions", fixed, check);
     eng.explore("stats-vs-recomputation", scaled(n, a), move || strategy(tier), check);
 }
